@@ -761,44 +761,181 @@ def errObject : Sig → M Val
             (.str (str "source"), .opaque "source name"), (.str (str "trace"), .opaque "trace")]
   | _ => newMap [(.str (str "type"), .str (str "UnexpectedError")), (.str (str "error"), .opaque "error text")]
 
-/-- newFunc.addSuperClasses: first the super templates (depth first, in list order; elements that are
-    not maps are skipped), then every property of the template is copied into the object; a function
-    value is copied as a NEW function bound to the object (`this`), the one under "init" also gets the
-    list of the super templates' init functions (`super`, absent when nothing was collected).
-    Returns (init function of this template or null, the error variable of the Go code: each
-    recursive call overwrites it). -/
+/-! ### builtins on the heap, call frames, objects — outside the mutual block; `runBuiltin` / `runFunction`
+     call them (the C05 theorems are about these functions) -/
+
+def thisName : List Nat := [116, 104, 105, 115]          -- "this"
+def superName : List Nat := [115, 117, 112, 101, 114]    -- "super"
+def initName : List Nat := [105, 110, 105, 116]          -- "init"
+
+/-- AssertNumParam for the values this model supports -/
+def numParamB (i : Nat) (v : Val) : M Float := match v with
+  | .num x => pure x
+  | .str _ => throw (Sig.unsupported "number parameter given as string")
+  | .opaque w => throw (Sig.unsupported s!"opaque value {w}")
+  | _ => throw (plain s!"Parameter {i} should be a number")
+
+/-- lenFunc -/
+def lenB : List Val → M Val
+  | .list _ l :: _ => pure (.num (Float.ofNat l))
+  | .map r :: _ => do pure (.num (Float.ofNat (← getMap r).length))
+  | _ => throw (plain "Need a list or a map as first parameter")
+
+/-- `append(argList[:i], argList[i+1:]...)`: shifts inside the same backing array -/
+def delAt (r l i : Nat) : M Val := do
+  let b ← getBacking r
+  setBacking r (b.take i ++ (b.take l).drop (i + 1) ++ b.drop (l - 1))
+  pure (.list r (l - 1))
+
+/-- delFunc -/
+def delB : List Val → M Val
+  | [.list r l, k] => do
+    let x ← numParamB 2 k
+    let i ← goInt x
+    if i < 0 || i ≥ (l : Int) then throw (plain "Out of bounds access to list")
+    delAt r l i.toNat
+  | [.map r, k] => do
+    let key ← sprint k
+    let kvs ← getMap r
+    setMap r (kvs.filter fun p => !(keyEq p.1 (.str key)))
+    pure (.map r)
+  | _ => throw (plain "Need a list or a map as first parameter and an index or key as second parameter")
+
+/-- `append(list, 0); copy(list[i+1:], list[i:]); list[i] = v` -/
+def insertAt (r l : Nat) (v : Val) (i : Nat) : M Val := do
+  match ← appendVals r l [.num 0] with
+  | .list r' l' =>
+    let b ← getBacking r'
+    let cur := b.take l'
+    setBacking r' (cur.take i ++ [v] ++ (cur.drop i).take (l' - i - 1) ++ b.drop l')
+    pure (.list r' l')
+  | x => pure x
+
+/-- addFunc -/
+def addB : List Val → M Val
+  | .list r l :: v :: rest => do
+    match rest with
+    | [ix] =>
+      let x ← numParamB 3 ix
+      let i ← goInt x
+      if i < 0 || i > (l : Int) then throw (plain "Out of bounds access to list")
+      -- int(index+1) / int(index) of a non-integral index differ from i+1 / i only in the fraction
+      if !(isIntegral x) then throw (Sig.unsupported "add with a non-integral index")
+      insertAt r l v i.toNat
+    | _ => appendVals r l [v]
+  | _ :: _ :: _ => throw (plain "Parameter 1 should be a list")
+  | _ => throw (plain "Need a list as first parameter and a value as second parameter")
+
+/-- the loop of concatFunc: `cur = append(cur, list...)` for every argument -/
+def concatGo : List Val → Val → M Val
+  | [], cur => pure cur
+  | a :: rest, cur =>
+    match a, cur with
+    | .list r l, .list cr cl => do
+      let cur' ← appendVals cr cl (← getList r l)
+      concatGo rest cur'
+    | _, _ => throw (plain "Parameter 1 should be a list")
+
+/-- concatFunc -/
+def concatB (args : List Val) : M Val := do
+  if args.length < 2 then throw (plain "Need at least two lists as parameters")
+  let r0 ← newBacking []
+  concatGo args (.list r0 0)
+
+/-- the parameter loop of function.Run: position `i` of the argument list, else the default (evaluated by
+    `evalDefault`: the evaluator passes evaluation in the CALLER's scope), else null; written with SetValue
+    into the frame, which has no parent yet -/
+def bindParamNodes (evalDefault : Node → M Val) (fvs : Nat) : List (Option Node) → Nat → List Val → M Unit
+  | [], _, _ => pure ()
+  | none :: _, _, _ => throw Sig.panic
+  | some p :: ps, i, args => do
+    if p.name == "identifier" then
+      setValue fvs (← tokOf p).val (args.getD i Val.null)
+    else if p.name == "preset" then
+      let nameTok ← tokOf (← child p 0)
+      let v ← if i < args.length then pure (args.getD i Val.null) else evalDefault (← child p 1)
+      setValue fvs nameTok.val v
+    bindParamNodes evalDefault fvs ps (i + 1) args
+
+/-- function.Run up to the evaluation of the body: a NEW root scope, `this` / `super` (if bound), the
+    parameters, and only then the link to the declaration scope; returns the frame -/
+def buildFrame (evalDefault : Node → M Val) (fr : FuncRec) (params : List (Option Node)) (args : List Val) : M Nat := do
+  let fvs ← newScope s!"func: {fr.name}"
+  match fr.this with
+  | some t => setValue fvs thisName t
+  | none => pure ()
+  match fr.super with
+  | some sl => setValue fvs superName sl
+  | none => pure ()
+  bindParamNodes evalDefault fvs params 0 args
+  let s ← getScope fvs
+  setScope fvs { s with parent := some fr.declScope }
+  pure fvs
+
+/-- the copy loop of addSuperClasses: every property of the template goes into the object; a function value is
+    copied as a NEW function bound to the object (`this`), the one under "init" also gets the list of the
+    super templates' init functions (`super`, absent when nothing was collected) and is remembered -/
+def copyProps (obj : Nat) (initSuper : List Val) : List (Val × Val) → Val → M Val
+  | [], initFn => pure initFn
+  | (k, v) :: rest, initFn =>
+    match v with
+    | .func id => do
+      let fr ← (match (← get).funcs[id]? with
+        | some fr => pure fr
+        | none => throw (Sig.unsupported "dangling function id"))
+      let isInit := keyEq k (.str initName)
+      let sup ← (if isInit && !initSuper.isEmpty then do pure (some (← newListLit initSuper)) else pure none)
+      let s ← get
+      set { s with funcs := s.funcs.push { fr with this := some (.map obj), super := sup } }
+      let nf := Val.func s.funcs.size
+      setMap obj (mapStore (← getMap obj) k nf)
+      copyProps obj initSuper rest (if isInit then nf else initFn)
+    | _ => do
+      setMap obj (mapStore (← getMap obj) k v)
+      copyProps obj initSuper rest initFn
+
+/-- the loop over the "super" list: `rec` adds one super template to the object and returns (its init or
+    null, the Go error variable); elements that are not maps are skipped; every call overwrites the error -/
+def superLoop (rec : Nat → M (Val × Option Sig)) : List Val → Option Sig → List Val → M (Option Sig × List Val)
+  | [], err, acc => pure (err, acc)
+  | .map sr :: rest, _, acc => do
+    let (si, e) ← rec sr
+    superLoop rec rest e (acc ++ [si])
+  | _ :: rest, err, acc => superLoop rec rest err acc
+
+/-- newFunc.addSuperClasses: first the super templates (depth first, in list order), then the template's
+    own properties (`copyProps`).  Returns (init function of this template or null, the error variable of
+    the Go code). -/
 def addSuperClasses : Nat → Nat → Nat → M (Val × Option Sig)
   | 0, _, _ => throw Sig.fuel
   | f+1, obj, tr => do
     let tkvs ← getMap tr
-    let mut err : Option Sig := none
-    let mut initSuper : List Val := []
-    match mapLookup tkvs (.str (str "super")) with
-    | some (.list r l) =>
-      for s in (← getList r l) do
-        match s with
-        | .map sr =>
-          let (si, e) ← addSuperClasses f obj sr
-          err := e
-          initSuper := initSuper ++ [si]
-        | _ => pure ()
-    | some _ => err := some (plain "Property _super must be a list of super classes")
-    | none => pure ()
-    let mut initFn := Val.null
-    for (k, v) in tkvs do
-      match v with
-      | .func id =>
-        -- a function value always denotes an entry of the table (a dangling id is outside the model, not a Go panic)
-        let fr ← (match (← get).funcs[id]? with | some fr => pure fr | none => throw (Sig.unsupported "dangling function id"))
-        let isInit := keyEq k (.str (str "init"))
-        let sup ← (if isInit && !initSuper.isEmpty then do pure (some (← newListLit initSuper)) else pure none)
-        let s ← get
-        set { s with funcs := s.funcs.push { fr with this := some (.map obj), super := sup } }
-        let nf := Val.func s.funcs.size
-        if isInit then initFn := nf
-        setMap obj (mapStore (← getMap obj) k nf)
-      | _ => setMap obj (mapStore (← getMap obj) k v)
+    let (err, initSuper) ← (match mapLookup tkvs (.str superName) with
+      | some (.list r l) => do superLoop (addSuperClasses f obj) (← getList r l) none []
+      | some _ => pure (some (plain "Property _super must be a list of super classes"), [])
+      | none => pure (none, []))
+    let initFn ← copyProps obj initSuper tkvs Val.null
     pure (initFn, err)
+
+/-- newFunc.Run: a fresh object, `addSuperClasses`, then the `init` of the finished object runs ONCE through
+    `runInit` with the remaining arguments (the evaluator passes: `function.Run` with a fresh empty root scope
+    as the caller's scope and a fresh instance state); its error replaces the earlier one -/
+def newB (runInit : Nat → List Val → M Val) : List Val → M Val
+  | .map tr :: rest => do
+    let obj ← newMap []
+    let oref := match obj with | .map r => r | _ => 0
+    let (_, err) ← addSuperClasses 200 oref tr
+    let err ← (match mapLookup (← getMap oref) (.str initName) with
+      | some (.func id) => do
+        match ← attemptE (runInit id rest) with
+        | .ok _ => pure none
+        | .error e => if e.isFatal then throw e else pure (some e)
+      | _ => pure err)
+    match err with
+    | some e => throw e
+    | none => pure obj
+  | _ :: _ => throw (plain "Parameter 1 should be a map")
+  | [] => throw (plain "Need a map as first parameter")
 
 mutual
 def eval : Nat → Nat → Node → M Val          -- fuel, scope, node
@@ -1180,11 +1317,7 @@ def runBuiltin : Nat → Nat → Node → String → List Val → M Val
       let txt := ",".intercalate (args.map (canonVal st canonDepth))
       modify fun s => { s with log := s.log.push ("m" ++ txt) }
       pure (args.headD Val.null)
-    | "len" =>
-      match args with
-      | .list _ l :: _ => pure (.num (Float.ofNat l))
-      | .map r :: _ => pure (.num (Float.ofNat (← getMap r).length))
-      | _ => throw (plain "Need a list or a map as first parameter")
+    | "len" => lenB args
     | "type" =>
       match args with
       | [] => throw (plain "Need a value as first parameter")
@@ -1192,73 +1325,12 @@ def runBuiltin : Nat → Nat → Node → String → List Val → M Val
         match a with
         | .null => pure (.str (str "<nil>"))
         | _ => pure (.str (← goSyntax f a))
-    | "del" =>
-      match args with
-      | [.list r l, k] => do
-        let x ← numParam 2 k
-        let i ← goInt x
-        if i < 0 || i ≥ (l : Int) then throw (plain "Out of bounds access to list")
-        let b ← getBacking r
-        let i := i.toNat
-        -- append(argList[:i], argList[i+1:]...) shifts inside the same backing array
-        setBacking r (b.take i ++ (b.take l).drop (i + 1) ++ b.drop (l - 1))
-        pure (.list r (l - 1))
-      | [.map r, k] => do
-        let key ← sprint k
-        let kvs ← getMap r
-        setMap r (kvs.filter fun p => !(keyEq p.1 (.str key)))
-        pure (.map r)
-      | _ => throw (plain "Need a list or a map as first parameter and an index or key as second parameter")
-    | "add" =>
-      match args with
-      | .list r l :: v :: rest => do
-        match rest with
-        | [ix] =>
-          let x ← numParam 3 ix
-          let i ← goInt x
-          if i < 0 || i > (l : Int) then throw (plain "Out of bounds access to list")
-          -- int(index+1) / int(index) of a non-integral index differ from i+1 / i only in the fraction
-          if !(isIntegral x) then throw (Sig.unsupported "add with a non-integral index")
-          let i := i.toNat
-          match ← appendVals r l [.num 0] with
-          | .list r' l' =>
-            let b ← getBacking r'
-            let cur := b.take l'
-            setBacking r' (cur.take i ++ [v] ++ (cur.drop i).take (l' - i - 1) ++ b.drop l')
-            pure (.list r' l')
-          | x => pure x
-        | _ => appendVals r l [v]
-      | _ :: _ :: _ => throw (plain "Parameter 1 should be a list")
-      | _ => throw (plain "Need a list as first parameter and a value as second parameter")
-    | "concat" =>
-      if args.length < 2 then throw (plain "Need at least two lists as parameters")
-      let r0 ← newBacking []
-      let mut cur := Val.list r0 0
-      for a in args do
-        match a, cur with
-        | .list r l, .list cr cl => cur ← appendVals cr cl (← getList r l)
-        | _, _ => throw (plain "Parameter 1 should be a list")
-      pure cur
-    | "new" =>
-      match args with
-      | .map tr :: rest => do
-        let obj ← newMap []
-        let oref := match obj with | .map r => r | _ => 0
-        let (_, err) ← addSuperClasses 200 oref tr
-        -- `init` of the finished object runs once with the remaining arguments; its caller scope is a
-        -- fresh empty root scope, its instance state a fresh map; its error replaces the earlier one
-        let err ← (match mapLookup (← getMap oref) (.str (str "init")) with
-          | some (.func id) => do
-            let ivs ← newScope "newfunc"
-            match ← attemptE (withFreshIs (runFunction f ivs id rest)) with
-            | .ok _ => pure none
-            | .error e => if e.isFatal then throw e else pure (some e)
-          | _ => pure err)
-        match err with
-        | some e => throw e
-        | none => pure obj
-      | _ :: _ => throw (plain "Parameter 1 should be a map")
-      | [] => throw (plain "Need a map as first parameter")
+    | "del" => delB args
+    | "add" => addB args
+    | "concat" => concatB args
+    | "new" => newB (fun id rest => do
+        let ivs ← newScope "newfunc"
+        withFreshIs (runFunction f ivs id rest)) args
     | "raise" =>
       let ty ← (match args with
         | [] => pure "Runtime error"
@@ -1300,33 +1372,15 @@ def runBuiltin : Nat → Nat → Node → String → List Val → M Val
 def runFunction : Nat → Nat → Nat → List Val → M Val
   | 0, _, _, _ => throw Sig.fuel
   | f+1, callerSc, id, args => do
-    -- a function value always denotes an entry of the table (a dangling id is outside the model, not a Go panic)
-    let fr ← (match (← get).funcs[id]? with | some fr => pure fr | none => throw (Sig.unsupported "dangling function id"))
+    let fr ← (match (← get).funcs[id]? with
+      | some fr => pure fr
+      | none => throw (Sig.unsupported "dangling function id"))
     let decl := fr.decl
     let c0 ← child decl 0
     let off := if c0.name == "identifier" then 1 else 0
     let params := (← child decl off).children
     let body ← child decl (off + 1)
-    let fvs ← newScope s!"func: {fr.name}"
-    match fr.this with
-    | some t => setValue fvs (str "this") t
-    | none => pure ()
-    match fr.super with
-    | some sl => setValue fvs (str "super") sl
-    | none => pure ()
-    let mut i := 0
-    for p in params do
-      let p ← (match p with | some p => pure p | none => throw Sig.panic)
-      if p.name == "identifier" then
-        setValue fvs (← tokOf p).val (args.getD i Val.null)
-      else if p.name == "preset" then
-        let nameTok ← tokOf (← child p 0)
-        let v ← if i < args.length then pure (args.getD i Val.null) else eval f callerSc (← child p 1)
-        setValue fvs nameTok.val v
-      i := i + 1
-    -- SetParentOfScope(fvs, declarationVS)
-    let s ← getScope fvs
-    setScope fvs { s with parent := some fr.declScope }
+    let fvs ← buildFrame (fun d => eval f callerSc d) fr params args
     callCore (withFreshIs (eval f fvs body))
 
 /-- the iterator of a `for … in` loop -/
